@@ -1,7 +1,9 @@
 from vlib.runner import Obligation, run_check
 
 FUNCS = ['mutations/base.py BaseModelMutation.is_mutable (AddField, ChangeField, DeleteField, RenameField, ChangeMeta, RenameModel, DeleteModel)',
-         'evolve/base.py BaseEvolutionTask.is_mutation_mutable', 'mutations/delete_application.py DeleteApplication.simulate']
+         'evolve/base.py BaseEvolutionTask.is_mutation_mutable', 'mutations/delete_application.py DeleteApplication.simulate',
+         'compat/db.py db_get_installable_models_for_app, db_router_allows_schema_upgrade, db_router_allows_migrate',
+         'signature.py AppSignature.from_app (router filter), db/state.py DatabaseState.has_model']
 
 
 def run(tier):
@@ -14,9 +16,19 @@ def run(tier):
                    bounds='same space', functions=FUNCS[:2]),
         Obligation('delete_app', 'harness/c16.py', 'h_delete_app', timeout=600,
                    what='DeleteApplication.simulate removes exactly the models routed to the evolved database',
-                   bounds='all 2^3 routings x 2 aliases', functions=FUNCS[2:]),
+                   bounds='all 2^3 routings x 2 aliases', functions=FUNCS[2:3]),
+        Obligation('installable', 'harness/c16.py', 'h_installable', timeout=600,
+                   what='db_get_installable_models_for_app (the models EvolveAppTask creates tables for) = models the router allows on the evolved database whose table does not exist yet; real django.db.router with a table-driven router object',
+                   bounds='3 models x routing in {default only, other only, no opinion}^3 x table present/absent ^3 x 2 aliases', functions=FUNCS[3:]),
+        Obligation('from_app', 'harness/c16.py', 'h_from_app', timeout=600,
+                   what='AppSignature.from_app(app, database), the signature recorded for a database, lists exactly the models the router allows on that database',
+                   bounds='3 models x routing in {default only, other only, no opinion}^3 x 2 aliases', functions=FUNCS[3:]),
+        Obligation('evolver_baseline', 'harness/c16.py', 'h_evolver_baseline', timeout=600,
+                   what='Evolver(database_name=D) on two real SQLite databases: the baseline signature comes from D\'s own version table (or is installed on D when missing) and the other database is neither consulted nor modified; discrete scenario, run concretely per path (the solver only enumerates the 8 scenarios)',
+                   bounds='2 aliases x stored baseline present/absent on each database', functions=['evolve/evolver.py Evolver.__init__', 'models.py VersionManager.current_version']),
     ]
     return run_check('C16', obs, tier,
-                     assumptions=['get_database_for_model_name is replaced by a symbolic routing table (2 aliases, 3 models)',
-                                  'everything else in C16 (tables created where, other database untouched) needs two live databases through the untraceable pipeline and is outside'],
+                     assumptions=['is_mutable/task_filter/delete_app: get_database_for_model_name is replaced by a symbolic routing table (2 aliases, 3 models)',
+                                  'installable/from_app: the real django.db.router consults a router object driven by a symbolic table; get_models / get_app_label / get_app_upgrade_info return three fixed model classes (no installed app)',
+                                  'everything else in C16 (SQL of a whole evolve() run landing on the right database, other database untouched by it) needs the untraceable pipeline end to end and is outside'],
                      trusted_base=['CrossHair 0.0.110', 'z3 5.1.0', 'vlib/ch_patch.py'])
